@@ -425,6 +425,28 @@ fn main() {
                 let (cols, id) = vh::metadata_after_rows((a[1].parse().unwrap(), opt(a[2])), (a[3].parse().unwrap(), opt(a[4])));
                 format!("{} {}", cols, match id { None => "none".to_string(), Some(v) => v.iter().map(|b| format!("{:02x}", b)).collect() })
             }
+            // tmaint <n> (<first> <last> <unresolved 0|1> <resolvable now 0|1> <replica on a removed node 0|1>)*n <any node removed 0|1> <any node re-created 0|1>
+            "tmaint" => {
+                let n = num(1) as usize;
+                let mut t = vh::Tablets::new();
+                let (mut removed, mut known): (Vec<u128>, Vec<u128>) = (Vec::new(), Vec::new());
+                let any_removed = num(2 + 5 * n) == 1;
+                let any_recreated = num(3 + 5 * n) == 1;
+                for i in 0..n {
+                    let b = 2 + 5 * i;
+                    let (f, l, unresolved, resolvable, on_removed) = (num(b) as i64, num(b + 1) as i64, num(b + 2) == 1, num(b + 3) == 1, num(b + 4) == 1);
+                    let id = 1000 + i as u128;
+                    t.add_on(f, l, id, !unresolved);
+                    if unresolved && resolvable { known.push(id); }
+                    if on_removed && any_removed { removed.push(id); }
+                }
+                if any_removed && removed.is_empty() { removed.push(9999); }
+                let recreated: Vec<u128> = if any_recreated { vec![8888] } else { vec![] };
+                let before = t.flag();
+                t.maintain(&removed, &known, &recreated);
+                let left: Vec<String> = (0..t.len()).map(|i| { let (a, b, _) = t.get(i); format!("{},{}{}", a, b, if t.is_unresolved(i) { "!" } else { "" }) }).collect();
+                format!("before={} after={} left={}", before, t.flag(), if left.is_empty() { "-".to_string() } else { left.join(";") })
+            }
             "token_new" => Token::new(num(1) as i64).value().to_string(),
             _ => "UNKNOWN".to_string(),
         };
